@@ -395,6 +395,34 @@ class Interp:
                 return ('adt', RANGE, 0, (I(a), I(b)))
             a = self.facts.adts.get(path)
             if a is not None:
+                cs = self.cursor_struct(path) if a['kind'] == 'Struct' else None
+                if cs is not None and (a.get('has_drop') or (owner_adt and self.facts.adts.get(owner_adt, {}).get('has_drop'))):
+                    # an owning front cursor spelled out as { slots: &mut [MaybeUninit<_>], next: usize }: the same
+                    # entry state as for an owned slice iterator (positions relative to the slice; the handle owns
+                    # the elements from the cursor on, nobody else covers them).  The invariant assumed here is
+                    # required of every such value that survives a root (HANDLE at the exits).
+                    mid = self.new_map(st, fresh('$cap'), 'phantom', phantom=True)
+                    ms = st.maps[mid]
+                    hi = Term('$back.' + mid)
+                    nx = fresh('u')
+                    st.zone.touch(hi)
+                    st.zone.touch(nx)
+                    st.zone.add_le(0, nx)
+                    st.zone.add_le(nx, hi)
+                    st.zone.add_eq(ms.len, 0)
+                    st.zone.add_le(hi, ms.cap)
+                    ms.extra_rng = (nx, hi)
+                    ms.owned_extras = True
+                    ftys = self.adt_field_tys(ty, 0)
+                    fields = []
+                    for i, ft in enumerate(ftys):
+                        if i == cs[0]:
+                            fields.append(('ref', True, ('slice', mid, 0, hi)))
+                        elif i == cs[1]:
+                            fields.append(I(nx))
+                        else:
+                            fields.append(self.mk_unknown(st, ft, tag + (i,), gs, None, depth + 1))
+                    return ('adt', path, 0, tuple(fields))
                 if a['kind'] == 'Struct':
                     ftys = self.adt_field_tys(ty, 0)
                     own = path if a.get('has_drop') else owner_adt
